@@ -75,11 +75,12 @@ theorem signed_map_exact : Generated.signedMap =
      ("v", "e.V"), ("clock.id", "hex.EncodeToString(e.Clock.GetID())"), ("clock.time", "e.Clock.GetTime()"),
      ("additional_data?", "e.AdditionalData"), ("<marshal>", "data")] := by decide
 
-/-- `ToHashable` copies every field from the entry's getters, unconditionally -/
+/-- `ToHashable` copies every field from the entry's getters, unconditionally (`<body>`: the statements of the
+    function other than local definitions, filling loops, error returns and the return — none) -/
 theorem hashable_exact : Generated.hashableFields =
     [("Hash", "nil"), ("ID", "e.GetLogID()"), ("Payload", "e.GetPayload()"), ("Next", "nexts"), ("Refs", "refs"),
      ("V", "e.GetV()"), ("Clock", "e.GetClock()"), ("Key", "e.GetKey()"), ("AdditionalData", "e.GetAdditionalData()"),
-     ("<body>", "AssignStmt,AssignStmt,RangeStmt,RangeStmt,ReturnStmt")] := by decide
+     ("<body>", "")] := by decide
 
 /-! ## field flow of the conversions -/
 
